@@ -1,15 +1,11 @@
 package tmmirror
 
 import (
-	"runtime"
-	"time"
-
 	"github.com/gordian-engine/gordian/gcrypto"
 	"github.com/gordian-engine/gordian/internal/verifrt"
 	"github.com/gordian-engine/gordian/internal/verifrt/vkit"
 	"github.com/gordian-engine/gordian/tm/tmconsensus"
 	"github.com/gordian-engine/gordian/tm/tmengine/internal/tmeil"
-	"github.com/gordian-engine/gordian/tm/tmengine/tmelink"
 )
 
 // ---- consumers (the harness plays the state machine and the gossip strategy)
@@ -55,45 +51,6 @@ func (c *vhConsumer) see(v *tmconsensus.VersionedRoundView, fresh bool) {
 func (c *vhConsumer) sawPrecommits(h uint64, r uint32, hash string, signers uint64) bool {
 	s, ok := c.last[[2]uint64{h, uint64(r)}]
 	return ok && s.precom[hash]&signers == signers
-}
-
-// tryRecvGossip / tryRecvSM: a receive that does not wait for ever. Under the symbolic executor
-// the kernel goroutine is parked in its select whenever the harness runs, so a non-blocking
-// receive is exact; natively a short wait gives the kernel goroutine time to get there.
-func (e *vhM) tryRecvGossip() (tmelink.NetworkViewUpdate, bool) {
-	if verifrt.Symbolic() {
-		runtime.Gosched() // let the kernel goroutine reach its select
-		select {
-		case u := <-e.gossipOut:
-			return u, true
-		default:
-			return tmelink.NetworkViewUpdate{}, false
-		}
-	}
-	select {
-	case u := <-e.gossipOut:
-		return u, true
-	case <-time.After(150 * time.Millisecond):
-		return tmelink.NetworkViewUpdate{}, false
-	}
-}
-
-func (e *vhM) tryRecvSM() (tmeil.StateMachineRoundView, bool) {
-	if verifrt.Symbolic() {
-		runtime.Gosched()
-		select {
-		case u := <-e.smOut:
-			return u, true
-		default:
-			return tmeil.StateMachineRoundView{}, false
-		}
-	}
-	select {
-	case u := <-e.smOut:
-		return u, true
-	case <-time.After(150 * time.Millisecond):
-		return tmeil.StateMachineRoundView{}, false
-	}
 }
 
 type vhC11 struct {
